@@ -1,11 +1,14 @@
 package main
 
-// parsetime: ParseString under a long watchdog, reporting the elapsed wall time.  Used by C11 to
-// measure how parsing time grows with the size of one construct (promptness).
-// Output: id <TAB> microseconds (minimum of up to 3 runs) <TAB> OK|ERR   (or id <TAB> HANG / PANIC)
+// parsetime: ParseString under a long watchdog, reporting what one call costs.  Used by C11 to
+// measure how the cost of parsing grows with the size of one construct (promptness).
+// Output: id <TAB> wall-microseconds <TAB> bytes-allocated <TAB> OK|ERR   (or id <TAB> HANG / PANIC)
+// The number of bytes allocated (runtime.MemStats.TotalAlloc) is deterministic: it does not depend
+// on the load of the machine, unlike any time measurement.
 
 import (
 	"fmt"
+	"runtime"
 	"time"
 
 	gparser "grits/parser"
@@ -14,24 +17,18 @@ import (
 func init() {
 	register("parsetime", func(a []string) {
 		runCases(a[0], 60*time.Second, func(text string) string {
-			// minimum of up to three runs: removes one-off costs (stack growth, GC) and load spikes
-			best := int64(-1)
-			var err error
-			for rep := 0; rep < 3; rep++ {
-				t0 := time.Now()
-				_, _, _, err = gparser.ParseString(text)
-				us := time.Since(t0).Microseconds()
-				if best < 0 || us < best {
-					best = us
-				}
-				if us > 1500000 {
-					break
-				}
-			}
+			var m0, m1 runtime.MemStats
+			runtime.GC()
+			runtime.ReadMemStats(&m0)
+			t0 := time.Now()
+			_, _, _, err := gparser.ParseString(text)
+			us := time.Since(t0).Microseconds()
+			runtime.ReadMemStats(&m1)
+			v := "OK"
 			if err != nil {
-				return fmt.Sprintf("%d\tERR", best)
+				v = "ERR"
 			}
-			return fmt.Sprintf("%d\tOK", best)
+			return fmt.Sprintf("%d\t%d\t%s", us, m1.TotalAlloc-m0.TotalAlloc, v)
 		})
 	})
 }
